@@ -10,6 +10,7 @@ import Driver.Ops.Dis
 import Driver.Ops.Orb
 import Driver.Ops.Chunk
 import Driver.Ops.Codec
+import Driver.Ops.Sampling
 /-
 Line-protocol driver.  One request per line (`<op> <args…>`), one response line per request.
 Each op family lives in its own module `Driver/Ops/*.lean` exposing `handle : List String → String`
@@ -30,7 +31,8 @@ def handlers : List (String × (List String → String)) := [
   ("dis", Dis.handle),
   ("orb", Orb.handle),
   ("chunk", ChunkOp.handle),
-  ("codec", Codec.handle)
+  ("codec", Codec.handle),
+  ("samp", Samp.handle)
 ]
 
 def step (line : String) : String :=
